@@ -322,6 +322,8 @@ class FakeSnowflakeCursor:
                 if cmd == "DROP DATABASE" and ident == self._conn.database:
                     self._conn.database = None
                     self._conn.schema = None
+                    self._conn.database_set = False
+                    self._conn.schema_set = False
 
                 elif cmd == "DROP SCHEMA" and ident == self._conn.schema:
                     # sqlglot parses the schema name into db and its database into catalog, except for
@@ -331,6 +333,7 @@ class FakeSnowflakeCursor:
                     # a schema of the same name in another database is not the current schema
                     if not db or db == self._conn.database:
                         self._conn.schema = None
+                        self._conn.schema_set = False
 
         if table_comment := cast(tuple[exp.Table, str], transformed.args.get("table_comment")):
             # record table comment
